@@ -64,7 +64,8 @@ type scenario struct {
 	timing     int // 0 with the request, 1 right after dial, 2 after a delay, 3 never (no initial payload)
 	delay      time.Duration
 	c2s, s2c   int64
-	afterEOF   int // 0 none, 1 target sends its second half only after it saw EOF, 2 client likewise
+	afterEOF   int           // 0 none, 1 target sends its second half only after it saw EOF, 2 client likewise
+	eofPause   time.Duration // how long the side that saw EOF stays quiet before it goes on
 	fail       string
 	target     conn.Addr
 	got        *svc.UpConn
@@ -279,6 +280,9 @@ func Run(s *simrt.Sim) {
 		sc.c2s = int64(util.Pick(s, []int{0, 1, 4096, 70000, 200000}))
 		sc.s2c = int64(util.Pick(s, []int{0, 1, 4096, 70000, 200000}))
 		sc.afterEOF = s.ChooseBiased(3, 128)
+		if sc.afterEOF != 0 && s.GenChance(64) {
+			sc.eofPause = util.Pick(s, []time.Duration{time.Second, 6 * time.Second, 31 * time.Second, 3 * time.Minute})
+		}
 		switch {
 		case sp.Proto == svc.PDirect:
 			sc.target, sc.fail = sp.TunnelRemote, tunnelFail
@@ -589,6 +593,10 @@ func serveTarget(s *simrt.Sim, sc *scenario, u *svc.UpConn, first []byte) {
 			case <-waitFailed(s):
 				return
 			}
+			if sc.eofPause > 0 {
+				s.Probe("c13.half-close.pause")
+				s.Sleep(sc.eofPause) // the half-open connection stays quiet for a while
+			}
 			if !writeStream(s, u.Conn, ks, half, sc.s2c-half, fmt.Sprintf("connection %d: destination (after EOF)", sc.idx), "c13.error{target-write}") {
 				return
 			}
@@ -773,6 +781,10 @@ func runClient(s *simrt.Sim, e *svc.Env, ctx context.Context, sp *svc.ServerSpec
 				s.Probe("c13.half-close.target-first")
 			case <-waitFailed(s):
 				return
+			}
+			if sc.eofPause > 0 {
+				s.Probe("c13.half-close.pause")
+				s.Sleep(sc.eofPause)
 			}
 			if !writeStream(s, c, kc, int64(sc.pLen)+half, sc.c2s-half, who+" (after EOF)", "c13.error{client-write}") {
 				return
